@@ -585,7 +585,8 @@ def main(pid, tier, seed, replay=None):
         preds, mc = {}, None
     else:
         # 1. design check: I-layer with every deviation off satisfies the P invariants
-        mc = tlc.run_tlc("MTTracerMC", cfg_text=mc_cfg(rate_model, 8 if q else 10, 3 if q else 4, True, {}, True, False, True),
+        # (under sampling every call event doubles the branching: the thorough bound is one frame more, not two levels deeper)
+        mc = tlc.run_tlc("MTTracerMC", cfg_text=mc_cfg(rate_model, 8 if (q or sampled) else 10, 3 if q else 4, True, {}, True, False, True),
                          workers=16, timeout=7200, xmx="24g")
         tlc.check_ok(mc, "MTTracerMC design")
         if mc.invariant_violated:
